@@ -1,5 +1,6 @@
 import Frp.Driver.Proto
 import Frp.Props.C19
+import Frp.Props.C19Sched
 /-
   Driver engines "client" (proxy.Manager + Wrapper + visitor.Manager) and "health"
   (health.Monitor): replay the harness trace on the models and evaluate the C19 predicates on the
@@ -299,6 +300,85 @@ def raceStep (st : ClientState) (kind : String) (rest : List String) (impl : Str
       let model := s!"w={raceRender wire};ra={resA};rb={resB};a={aPhase};st={statusStr st2.m}"
       (st2, verdictOf model impl (ri.map raceHoldsOn))
 
+
+/-! ### op `wake`: the worker has left its select (status-check timer, health notification) and a
+    reload / Manager.Close stops the wrapper before (SW) or after (WS) the worker gets `pw.mu`.
+    Every interleaving is a sequential run in lock order (`C19.conc_refines`), so the model result is
+    "B, then the worker's iteration" — on the STOPPED wrapper object if B stopped it — for SW and the
+    reverse for WS; the runtime may serve the two Lock() callers in the other order, that answer is
+    accepted when it is exactly the other order's. -/
+
+structure WakeImpl where
+  r : RaceImpl
+  gone : Bool
+
+def parseWakeImpl (impl : String) : Option WakeImpl :=
+  match impl.splitOn ";" with
+  | [w, ra, rb, a, st, g] =>
+    if g != "g=0" && g != "g=1" then none else
+    (parseRaceImpl (";".intercalate [w, ra, rb, a, st])).map (fun r => { r := r, gone := g == "g=1" })
+  | _ => none
+
+/-- the C19 clauses on the implementation's own answer: status and wire in step for every name, and
+    for the woken wrapper, if the reload took it out of the manager: its status is closed (closed is
+    absorbing) and after the last CloseProxy of its name nothing is registered that the new
+    configuration does not account for (one NewProxy if the name is configured again, none otherwise) -/
+def wakeHoldsOn (n : Nat) (a : String) (wi : WakeImpl) : Bool :=
+  raceHoldsOn wi.r &&
+  (!wi.gone ||
+    (a == "a=closed" &&
+      C19.noNewAfterLastClose ((((wi.r.wire.find? (·.1 == n)).map (·.2)).getD []).map (·.1))
+        (if wi.r.status.any (·.1 == n) then 1 else 0)))
+
+def wakeStep (st : ClientState) (order : String) (rest : List String) (impl : String) : ClientState × Verdict :=
+  let (wTok, bTok) := splitAt "/" rest
+  match wTok with
+  | [op, ns, nows] =>
+    match ns.toNat?, nows.toNat? with
+    | some n, some now =>
+      if op != "tick" && op != "hup" && op != "hdown" then (st, .bad "wake op") else
+      if order != "SW" && order != "WS" then (st, .bad "wake order") else
+      match Reconcile.find st.m n with
+      | none => (st, verdictOf "none" impl)
+      | some w0 =>
+        if op != "tick" && !w0.cfg.health then (st, verdictOf "nohealth" impl) else
+        let wEv : List Event := if op == "tick" then [.tick now] else
+          if op == "hup" then [.healthUp, .tick now] else [.healthDown, .tick now]
+        let render := fun (st2 : ClientState) (wire : List (Nat × Msg)) (resB : String) =>
+          let aPhase := match st2.m.proxies.find? (fun (x : W) => x.cfg.name == n && x.id == w0.id) with
+            | some x => (phaseTok x.phase, "0")
+            | none => ("closed", "1")
+          s!"w={raceRender (wire.map (fun x => (x.1, x.2, false)))};ra=-;rb={resB};a={aPhase.1};st={statusStr st2.m};g={aPhase.2}"
+        -- WS: the worker's iteration, then B
+        let ws : Option (ClientState × String) :=
+          let (m1, msW, _) := deliverEvents st.m n wEv
+          (raceApply { st with m := m1 } bTok false).map (fun (st2, msB, resB) =>
+            (st2, render st2 (msW.map (fun x => (n, x)) ++ msB) resB))
+        -- SW: B, then the worker's iteration on the same wrapper OBJECT
+        let sw : Option (ClientState × String) :=
+          (raceApply st bTok false).map (fun (st2, msB, resB) =>
+            match st2.m.proxies.find? (fun (x : W) => x.cfg.name == n && x.id == w0.id) with
+            | some _ =>
+              let (m3, msW, _) := deliverEvents st2.m n wEv
+              let st3 := { st2 with m := m3 }
+              (st3, render st3 (msB ++ msW.map (fun x => (n, x))) resB)
+            | none =>
+              -- stopped by B: the iteration runs on the closed wrapper (`C19.closed_tick_silent`)
+              let wOld : W := ((st2.stopped.find? (fun (x : W) => x.cfg.name == n && x.id == w0.id)).getD
+                { w0 with phase := .closed })
+              let (_, msW, _) := run wOld wEv
+              (st2, render st2 (msB ++ msW.map (fun x => (n, x))) resB))
+        let (first, second) := if order == "SW" then (sw, ws) else (ws, sw)
+        match first, second with
+        | some (sa, ma), some (sb, mb) =>
+          let wi := parseWakeImpl impl
+          let aTok := ((impl.splitOn ";").getD 3 "")
+          let prop := wi.map (wakeHoldsOn n aTok)
+          if ma != impl && mb == impl then (sb, verdictOf mb impl prop) else (sa, verdictOf ma impl prop)
+        | _, _ => (st, .bad "wake B")
+    | _, _ => (st, .bad "wake")
+  | _ => (st, .bad "wake tokens")
+
 def clientStep (st : ClientState) (tok : List String) (impl : String) : ClientState × Verdict :=
   match tok with
   | ["reset"] => ({}, verdictOf "-" impl)
@@ -355,6 +435,7 @@ def clientStep (st : ClientState) (tok : List String) (impl : String) : ClientSt
     let obs := (parseStatusCfg impl).map (C19.statusHoldsOn (st.lastCfgs.getD []))
     (st, verdictOf (statusStr st.m) impl obs)
   | "race" :: kind :: rest => raceStep st kind rest impl
+  | "wake" :: order :: rest => wakeStep st order rest impl
   | ["close"] =>
     let (m', stp, ev) := closeAll st.m
     ({ st with m := m', stopped := st.stopped ++ sortByName stp, lastCfgs := none },
